@@ -183,6 +183,26 @@ def wait_procs(procs):
         pr["wall"] = time.time() - pr["t0"]
 
 
+def confirm_alone(pr, inflight, clidir):
+    """Re-runs an in-flight case alone (no rapid, idle process). True = the property held on it."""
+    rdir = pr["rdir"] + "-alone"
+    shutil.rmtree(rdir, ignore_errors=True)
+    os.makedirs(os.path.join(rdir, "tmp"), exist_ok=True)
+    env = goenv()
+    env.update(VERIF_REPLAY_IN=os.path.abspath(inflight), VERIF_TIER="quick", VERIF_SEED="1", VERIF_KNOWN=os.path.join(ROOT, "known_findings.json"),
+               VERIF_ROOT=ROOT, VERIF_TMP=os.path.join(rdir, "tmp"), VERIF_REPO_DIR=REPO)
+    if clidir:
+        env["VERIF_CLI"] = clidir
+    try:
+        p = subprocess.run([pr["p"].args[0], "-test.v", "-test.run=^TestReplay$", "-test.timeout=300s"], cwd=rdir, env=env,
+                           stdout=subprocess.PIPE, stderr=subprocess.STDOUT, text=True, timeout=400)
+    except subprocess.TimeoutExpired:
+        return False
+    ok = p.returncode == 0 and "VERIF-VIOLATION" not in p.stdout
+    log("in-flight case of %s at its deadline, re-run alone: %s" % (pr["tag"], "holds (deadline = load, inconclusive)" if ok else "fails"))
+    return ok
+
+
 def load_known():
     try:
         return json.load(open(os.path.join(ROOT, "known_findings.json"))).get("findings", [])
@@ -285,8 +305,14 @@ def run_property(pid, tier, seed):
             json.dump({"property": pid, "sub": "concurrent", "violation": {"kind": "data-race", "msg": txt[i:i + 6000]}, "case": {"note": "race detector report; see msg"}}, open(rp, "w"), indent=1)
             files.append(rp)
         if not files and pr["rc"] != 0:
-            # the process died (fatal error / OOM kill) while working on a case it had written out
+            # the process died (fatal error / OOM kill) while working on a case it had written out.
+            # A process that merely ran into its overall deadline (a loaded machine) also leaves its
+            # in-flight case behind: that case is re-run alone; it counts only if it fails there too
+            # (the per-case watchdog inside the test, not the process deadline, is the hang oracle).
+            deadline = pr["timed_out"] or "panic: test timed out" in txt
             for inf in sorted(glob.glob(os.path.join(pr["rdir"], "*.inflight"))):
+                if deadline and confirm_alone(pr, inf, clidir):
+                    continue
                 dst = inf[:-len(".inflight")] + "-died.json"
                 shutil.copyfile(inf, dst)
                 files.append(dst)
